@@ -64,8 +64,11 @@ DOMAINS = {
     "sources": [True, False], "outputs": [True, False], "attachments": [True, False], "metadata": [True, False],
     "id": [True, False], "details": [True, False],
 }
-IGNORE_PATHS = ["/cells/*/outputs", "/cells/*/metadata", "/metadata", "/cells/*/attachments", "/cells/*"]
-IGNORE_VALUES = [True, False, ["collapsed", "tags"], ["execution_count"]]
+IGNORE_PATHS = ["/cells/*/outputs", "/cells/*/metadata", "/metadata", "/cells/*/attachments", "/cells/*",
+                # paths are opaque keys of the mapping: dashes, dots, pluses, underscores, spaces are all legal in them
+                "/cells/*/metadata/nbsphinx-toctree", "/metadata/widgets/application/vnd.jupyter.widget-state+json",
+                "/metadata/language_info", "/cells/*/metadata/my key", "/metadata/color-words", "/metadata/Ignore"]
+IGNORE_VALUES = [True, False, ["collapsed", "tags"], ["execution_count"], ["nbsphinx-toctree", "a_b"]]
 
 
 def options_of(entry):
